@@ -6,7 +6,62 @@ from nvlib.check import Prop
 from props import c06_extract as T
 
 NSLOT, NOBJ, NVAR, NCALL, NSENT = 10, 4, 4, 4, 4
-NEFUN = 20
+NEFUN = 45
+
+
+def save_text(v):
+    """the driver's save format of a small value (ints, strings without blanks, lists, dicts)"""
+    if isinstance(v, int):
+        return str(v)
+    if isinstance(v, str):
+        return '"%s"' % v
+    if isinstance(v, list):                      # arrays are lists, mappings are tuples of (key, value) pairs
+        return "({" + "".join(save_text(x) + "," for x in v) + "})"
+    return "([" + "".join(save_text(k) + ":" + save_text(x) + "," for k, x in v) + "])"
+
+
+SAVE_BASES = [
+    [1, "ab", (("k", [2]), ("j", 3))],
+    (("k", [1, "x"]), ([2], "v"), (7, (("z", 1),))),
+    [[[1], "s"], "t"],
+    (("a", "b"), ((("m", 1),), [3])),
+]
+DAMAGE_CHARS = 'x,:()[]{}"9-/'
+
+
+def damage(text, rng):
+    k = rng.below(5)
+    if not text:
+        return "x"
+    i = rng.below(len(text))
+    if k == 0:
+        return text[:i] or "("
+    if k == 1:
+        return text[:i] + rng.choice(DAMAGE_CHARS) + text[i + 1:]
+    if k == 2:
+        return text[:i] + text[i + 1:] or "("
+    if k == 3:
+        return text[:i] + text[i] + text[i:]
+    return text[:i] + rng.choice(DAMAGE_CHARS) + text[i:]
+
+
+def random_value(rng, depth=0):
+    k = rng.weighted([("int", 3), ("str", 3), ("arr", 2 if depth < 3 else 0), ("map", 2 if depth < 3 else 0)])
+    if k == "int":
+        return rng.range(-3, 40)
+    if k == "str":
+        return rng.choice(["a", "bc", "k1", "xyz"])
+    if k == "arr":
+        return [random_value(rng, depth + 1) for _ in range(rng.range(0, 3))]
+    out, seen = [], set()
+    for _ in range(rng.range(0, 3)):
+        key = random_value(rng, depth + 2) if rng.chance(1, 3) else rng.choice(["k", "j", 5, 6, "m"])
+        if isinstance(key, (int, str)):
+            if key in seen:
+                continue
+            seen.add(key)
+        out.append((key, random_value(rng, depth + 1)))
+    return tuple(out)
 
 
 class PCell:
@@ -58,13 +113,13 @@ class Gen:
         choices = [("newarr", 8), ("newmap", 5), ("newcls", 3), ("newbuf", 2), ("assign", 10), ("free", 6),
                    ("aset", 10), ("aget", 6), ("mset", 8), ("mdel", 4), ("newobj", 4), ("setvar", 6), ("getvar", 4),
                    ("dest", 2), ("cleanup", 2), ("drop", 1), ("call", 5), ("rmcall", 2), ("sweep", 3), ("sent", 4),
-                   ("rmsent", 2), ("newfun", 4), ("fill", 3), ("inp", 4), ("input", 3), ("deadcall", 3)]
+                   ("rmsent", 2), ("rmcalln", 1), ("rmall", 1), ("newfun", 4), ("fill", 3), ("inp", 4), ("input", 3), ("deadcall", 3)]
         choices += [("newmstr", 4), ("sappend", 4), ("sjoin", 3), ("sadd", 3), ("schar", 4)]
         if m == "unit":
-            choices += [("newstr", 6), ("push", 6), ("pushr", 3), ("pop", 6), ("popto", 3), ("oref", 1),
+            choices += [("newstr", 6), ("push", 6), ("pushr", 3), ("pop", 6), ("popto", 3), ("oref", 3),
                         ("clones", 1), ("unclone", 1)]
         else:
-            choices += [("err", 4), ("efun", 10), ("srange", 4)]
+            choices += [("err", 4), ("efun", 12), ("srange", 4), ("rest", 8), ("resto", 2)]
         k = r.weighted(choices)
         S = self.slots
         if k == "newarr":
@@ -205,6 +260,16 @@ class Gen:
             q = r.below(NCALL)
             self.calls[q] = None
             self.emit("rmcall %d" % q)
+        elif k == "rmcalln":
+            q = r.below(NCALL)
+            self.calls[q] = None
+            self.emit("rmcalln %d" % q)
+        elif k == "rmall":
+            o = r.below(NOBJ)
+            for q in range(NCALL):
+                if self.calls[q] is not None and self.calls[q][0] == o:
+                    self.calls[q] = None
+            self.emit("rmall %d" % o)
         elif k == "sweep":
             for q in range(NCALL):
                 c = self.calls[q]
@@ -332,6 +397,13 @@ class Gen:
             if n <= self.anon and not any(o is not None and o.size == 1 for o in self.obj):
                 self.anon -= n
             self.emit("unclone %d" % n)
+        elif k in ("rest", "resto"):
+            # value builder on a save text: valid, or damaged at one or two places (the partial value must be released)
+            text = save_text(random_value(r))
+            for _ in range(r.weighted([(0, 1), (1, 4), (2, 2)])):
+                text = damage(text, r)
+            if " " not in text and 0 < len(text) < 200 and not text.startswith("#"):
+                self.emit("%s %s" % (k, text))
         elif k == "err":
             self.emit("err %d %d" % (self.pick_slot(), self.pick_slot()))
         elif k == "efun":
@@ -373,7 +445,8 @@ class C06(Prop):
     theorems = ["NV.C06.widths_agree", "NV.C06.ref_eq_holders", "NV.C06.no_free_while_held",
                 "NV.C06.primitives_preserve_invariant", "NV.C06.string_never_freed_while_held", "NV.C06.string_cells_never_freed_while_held",
                 "NV.C06.string_saturates", "NV.C06.no_inplace_modification_while_shared", "NV.C06.extendInPlace_sole",
-                "NV.C06.joinInPlace_sole", "NV.C06.unlink_inplace_sole", "NV.C06.add_never_inplace", "NV.C06.sole_of_ref_one", "NV.C06.counters_exact", "NV.C06.balanced_history_returns_to_baseline",
+                "NV.C06.joinInPlace_sole", "NV.C06.unlink_inplace_sole", "NV.C06.add_never_inplace", "NV.C06.sole_of_ref_one", "NV.C06.incRef_str_matches",
+                "NV.C06.decRef_str_matches", "NV.C06.decRef_refed_matches", "NV.C06.incRef_refed_matches", "NV.C06.counters_exact", "NV.C06.balanced_history_returns_to_baseline",
                 "NV.C06.run_ok", "NV.C06.mstep_ok", "NV.C06.Fits_of_le", "NV.C06.Fits_of_size"]
     witness_theorems = ["NV.C06.wrap_uaf", "NV.C06.wrap_uaf_state", "NV.C06.cycle_leaks",
                         "NV.C06.object_cycle_cut_by_destruct", "NV.C06.prog_wrap_uaf"]
@@ -416,7 +489,11 @@ class C06(Prop):
             "seen by every variable compared (strings are values), stack pushes and pops, call_outs whose callbacks keep their argument, add_action and input_to carry-over "
             "arguments, owners destructed while call_outs / sentences / an input_to are pending (dropped by the sweep, "
             "refused by the input), "
-            "destruct + deferred cleanup, errors thrown under live frames, 20 efun/operator groups with results dropped; "
+            "destruct + deferred cleanup, errors thrown under live frames, 20 efun/operator groups with results dropped, "
+            "25 'value builder aborted half-way' groups (callbacks of map/filter/sort/unique/implode raising after k calls, "
+            "aggregates and call_other arguments with a failing element, sprintf/sscanf/regexp/allocate errors, built-in "
+            "sort refusing its input) and restore_variable / restore_object on valid and damaged save texts (every "
+            "truncation and two replacements at every position of four texts, random damage of random small values); "
             "half in unit mode (real C primitives), half in lpc mode (real interpreter); 15% of the cases may build "
             "cyclic containers; a case is non-trivial when it has >= 2 executed operations; distinct = distinct "
             "canonical implementation trace")
@@ -443,6 +520,93 @@ class C06(Prop):
     def run_impl(self, ctx, cases):
         # generous per-case limit: the heavy cases (65 537 clones, 70 000 holders) must not depend on machine speed
         return E.run_harness(self.exe, self.conf, cases, ctx.rundir, timeout=3600, args=("--timeout", "300"))
+
+    # ---- oracle audit: traces the judge must reject (one or more per clause), and must accept ---------------
+    NEG_BASE = ["mode unit", "newobj 0", "newarr 0 2", "newmap 1", "newmstr 2 abc", "assign 3 2", "assign 4 0", "mset 1 0 0",
+                "call 0 0 1 0 1", "sent 1 0 2 2", "setvar 0 1 0", "schar 3 0 z", "free 4", "rmcall 0", "rmsent 1", "free 0",
+                "free 1", "free 2", "free 3", "dest 0", "cleanup", "drop 0"]
+
+    def negatives(self):
+        """(name, op index (1-based), edit function on the line, expected verdict substring)"""
+        def fld(line, key):
+            return [x for x in line.split() if x.startswith(key)][0]
+
+        def setfld(line, key, val):
+            return " ".join(val if x.startswith(key) else x for x in line.split())
+
+        def ref(i, v):
+            def f(line):
+                r = fld(line, "r:")[2:].split(",")
+                r[i] = v
+                return setfld(line, "r:", "r:" + ",".join(r))
+            return f
+
+        def st(i, d):
+            def f(line):
+                s = fld(line, "st:")[3:].split(",")
+                s[i] = str(int(s[i]) + d)
+                return setfld(line, "st:", "st:" + ",".join(s))
+            return f
+
+        def txt(i, v):
+            def f(line):
+                s = fld(line, "t:")[2:].split(",")
+                s[i] = v
+                return setfld(line, "t:", "t:" + ",".join(s))
+            return f
+        N = [
+            ("ref-too-low", 6, ref(1, "1"), "ref-mismatch"), ("ref-too-high", 3, ref(2, "2"), "ref-mismatch"),
+            ("object-ref", 8, ref(0, "9"), "ref-mismatch"), ("string-ref", 5, ref(3, "1"), "ref-mismatch"),
+            ("freed-array-while-held", 6, ref(1, "x"), "freed-while-held"), ("freed-map-while-held", 8, ref(2, "x"), "freed-while-held"),
+            ("freed-string-while-held", 5, ref(3, "x"), "freed-while-held"), ("freed-object-while-held", 10, ref(0, "x"), "freed-while-held"),
+            ("array-not-freed", 20, ref(1, "1"), "leak op=20 cell="), ("object-not-freed", 21, ref(0, "1"), "leak op=21 cell="),
+            ("string-not-freed", 17, ref(3, "1"), "leak op=17 cell="),
+            ("arrays+1", 9, st(0, 1), "counter=num_arrays by=+1"), ("arrays-1", 9, st(0, -1), "counter-low"),
+            ("array-bytes", 2, st(1, 16), "counter=total_array_size"), ("mappings+1", 3, st(2, 1), "counter=num_mappings"),
+            ("nodes+1", 7, st(3, 1), "counter=total_mapping_nodes"), ("nodes-1", 7, st(3, -1), "counter-low"),
+            ("strings+1", 11, st(4, 1), "counter=num_distinct_strings by=+1"), ("strings-1", 9, st(4, -1), "counter-low"),
+            ("objects+1", 19, st(6, 1), "counter=tot_alloc_object"), ("objects-at-end", 21, st(6, 1), "counter=tot_alloc_object"),
+            ("program-ref", 2, lambda l: setfld(l, "p:", "p:5"), "kind=program"), ("program-freed", 2, lambda l: setfld(l, "p:", "p:x"), "freed-while-held"),
+            ("name-refs+1", 13, lambda l: setfld(l, "f:", "f:2"), "function_name_string_refs by=+1"),
+            ("name-refs-1", 9, lambda l: setfld(l, "f:", "f:0"), "counter-low"),
+            ("shared-text-changed", 11, txt(2, "zbc"), "modified-while-shared"), ("own-text-wrong", 11, txt(3, "abc"), "text-mismatch"),
+            ("text-vanished", 5, txt(2, "-"), "modified-while-shared"),
+            ("use-after-free", 7, lambda l: "uaf", "use-after-free"), ("driver-fatal", 7, lambda l: "fatal", "use-after-free"),
+            ("asan", 7, lambda l: "sanitizer ERROR: AddressSanitizer: heap-use-after-free on address @", "use-after-free"),
+            ("skipped-applicable", 6, lambda l: "skip", "trace-mismatch"), ("extra-cell", 3, lambda l: setfld(l, "r:", fld(l, "r:") + ",1"), "trace-mismatch"),
+            ("lpc-error", 7, lambda l: l.replace("ok ", "lpcerr ", 1), "crash"), ("garbage", 7, lambda l: "hello world", "crash"),
+            ("output-ends", 7, None, "output-ends"),
+        ]
+        return N
+
+    def extra_checks(self, ctx, tier, rng):
+        """the specification oracle must accept the model's own traces and reject each corrupted one with the right verdict"""
+        problems = []
+        base = E.Case("neg-base", self.NEG_BASE)
+        cyc = E.Case("neg-cyc", ["mode lpc", "newarr 0 2", "aset 0 0 0", "free 0"])
+        good = E.nvdrive(self.id, "model", E.cases_text([base, cyc]))
+        cases, expect = [], {}
+        for c in (base, cyc):
+            cases.append(E.Case("pos-" + c.id, c.lines + ["--"] + good[c.id]))
+        expect["pos-neg-base"] = "ok"
+        expect["pos-neg-cyc"] = "leak-cyclic"
+        for name, op, f, want in self.negatives():
+            tr = list(good["neg-base"])
+            if f is None:
+                tr = tr[:op - 1]
+            else:
+                tr[op - 1] = f(tr[op - 1])
+            cases.append(E.Case("neg-" + name, base.lines + ["--"] + tr))
+            expect["neg-" + name] = want
+        res = E.nvdrive(self.id, "judge", E.cases_text(cases))
+        self.neg_checked = len(cases)
+        for cid, want in expect.items():
+            got = res.get(cid, [])
+            ok = (got == ["ok"]) if want == "ok" else any(want in g for g in got)
+            if not ok:
+                problems.append({"kind": "obligation-broken", "name": "oracle-example:" + cid,
+                                 "detail": "the judge answered %s, expected a verdict containing %r" % (got[:3], want)})
+        return problems
 
     def canon(self, lines):
         out = []
@@ -521,6 +685,10 @@ class C06(Prop):
             # arrays are references: one holder's element store is seen by all (sanity, 32-bit counters)
             mk("array-65537-holders-store-" + mode, mode, ["newarr 0 2"] + big + ["fill 5 9535 0", "assign 6 0", "newmap 7",
                                                                                   "aset 6 0 7", "aget 8 0 0", "free 7", "free 8", "free 6"] + rel)
+        # object-valued call_out arguments: passed on while alive, released and zeroed when destructed before the call
+        mk("callout-object-args", "unit", ["newobj 0", "newobj 1", "newobj 2", "oref 0 1", "oref 1 2", "call 0 0 1 0 1", "call 1 0 1 1 0",
+                                           "dest 2", "sweep", "getvar 3 0 0", "getvar 4 0 1", "free 0", "free 1", "free 3", "free 4",
+                                           "dest 0", "dest 1", "cleanup", "drop 0", "drop 1", "drop 2"])
         mk("string-saturation", "unit", ["newstr 0 c06sat"] + big + ["fill 5 9534 0", "assign 6 0", "newstr 7 c06sat"]
            + rel + ["free 6", "free 7"])
         mk("malloc-string-shared", "unit", ["newmstr 0 c06m", "assign 1 0", "push 0", "newarr 2 2", "aset 2 0 0",
@@ -533,6 +701,23 @@ class C06(Prop):
         mk("copy-too-deep-lpc", "lpc", ["newarr 0 2", "newmap 1", "mset 1 0 0", "aset 0 0 1", "efun 1 0 1", "efun 1 1 0",
                                         "aset 0 0 5", "free 0", "free 1"])
         mk("copy-class-lpc", "lpc", ["newcls 0", "newarr 1 2", "aset 0 1 1", "efun 1 0 1", "efun 1 0 1", "free 0", "free 1"])
+        # "builder aborted half-way": every truncation and two replacements at every position of four save texts
+        ops = []
+        for bi, base in enumerate(SAVE_BASES):
+            text = save_text(base)
+            ops.append("rest " + text)
+            ops.append("resto " + text)
+            for i in range(1, len(text)):
+                ops.append("rest " + text[:i])
+                ops.append("rest " + text[:i] + "x" + text[i + 1:])
+                ops.append("rest " + text[:i] + "," + text[i + 1:])
+                if i % 4 == bi:
+                    ops.append("resto " + text[:i] + ":" + text[i + 1:])
+        for part in range(0, len(ops), 60):
+            mk("restore-damaged-%d" % (part // 60), "lpc", ["newarr 0 2", "newmap 1", "mset 1 0 0"] + ops[part:part + 60] + ["free 0", "free 1"])
+        mk("builders-aborted-lpc", "lpc", ["newarr 0 2", "newmap 1", "mset 1 0 0", "newcls 2", "aset 2 0 1"] +
+           ["efun %d %d %d" % (f, f % 3, (f + 1) % 3) for f in range(20, NEFUN)] +
+           ["efun %d %d %d" % (f, (f + 1) % 3, f % 3) for f in range(20, NEFUN)] + ["free 0", "free 1", "free 2"])
         mk("efuns-lpc", "lpc", ["newarr 0 3", "newmap 1", "mset 1 0 0", "aset 0 0 1"] +
            ["efun %d %d %d" % (f, f % 2, (f + 1) % 2) for f in range(NEFUN)] + ["free 0", "free 1"])
         return B
@@ -557,7 +742,7 @@ class C06(Prop):
         return hashlib.sha1("\n".join(out).encode()).hexdigest()
 
     def histogram(self, cases, impl):
-        h = {"ops_executed": 0, "ops_skipped": 0, "cases_unit": 0, "cases_lpc": 0, "uaf_outcomes": 0,
+        h = {"oracle_examples_checked": getattr(self, "neg_checked", 0), "ops_executed": 0, "ops_skipped": 0, "cases_unit": 0, "cases_lpc": 0, "uaf_outcomes": 0,
              "max_ref_seen": 0, "calls_dropped_by_sweep_owner_destructed": 0, "inputs_to_destructed_owner": 0,
              "sentences_freed_by_destruct": 0, "by_op": {}}
         for c in cases:
